@@ -10,7 +10,7 @@
     whatever the other direction is doing meanwhile.  That no error is reported under timely
     processing is explored by the duplex campaign (harness/props/C10.py). *)
 From IsoTp Require Import Base.Prelude Model.Micro Model.Joint Spec.ConfigSpec Proofs.Inv Proofs.FsmProps Proofs.DuplexP
-  Proofs.WireP Proofs.JointP Proofs.JointProcP.
+  Model.Pdu Proofs.WireP Proofs.JointP Proofs.JointProcP Proofs.TokenP.
 
 Theorem C10_tx_preserves_rx : forall c allowed s, rxv (tr_s (process_tx_main c allowed s)) = rxv s.
 Proof. exact tx_preserves_rx. Qed.
@@ -68,6 +68,23 @@ Theorem C10_both_directions : forall ca cb, params_ok (c_p ca) -> params_ok (c_p
                  sent_of SB tr = recv_of SA tr ++ rx_queue (nA n))).
 Proof. exact calls_transfer. Qed.
 
+(** ... and, with non-reserved STmin bytes, the only errors a full-duplex exchange can report first are
+    missed deadlines: neither direction ever sees a Flow Control it does not expect, whatever the
+    interleaving of the two process() loops and of the two directions of traffic. *)
+Theorem C10_only_deadline_errors : forall ca cb, params_ok (c_p ca) -> params_ok (c_p cb) ->
+  linked ca cb -> linked cb ca ->
+  forall ta tb cls,
+  stmin_valid (p_stmin (c_p ca)) = true -> stmin_valid (p_stmin (c_p cb)) = true -> Forall (call_ok ca cb) cls ->
+  let n := fst (crun ca cb (init_net ca cb ta tb) cls) in
+  let tr := snd (crun ca cb (init_net ca cb ta tb) cls) in
+  jto tr = true \/
+  (jerr tr = false /\
+   (exists later, sent_of SA tr = (recv_of SB tr ++ rx_queue (nB n)) ++ later) /\
+   (exists later, sent_of SB tr = (recv_of SA tr ++ rx_queue (nA n)) ++ later) /\
+   (at_rest n -> sent_of SA tr = recv_of SB tr ++ rx_queue (nB n) /\
+                 sent_of SB tr = recv_of SA tr ++ rx_queue (nA n))).
+Proof. exact calls_only_deadlines. Qed.
+
 Print Assumptions C10_tx_preserves_rx.
 Print Assumptions C10_rx_preserves_tx.
 Print Assumptions C10_fc_only_mailbox.
@@ -75,3 +92,4 @@ Print Assumptions C10_fc_answer_pass.
 Print Assumptions C10_user_calls.
 Print Assumptions C10_no_wedge.
 Print Assumptions C10_both_directions.
+Print Assumptions C10_only_deadline_errors.
